@@ -235,7 +235,7 @@ def run_batch(pid, spec, seed, scale, tag):
     """run every harness bin of the property and evaluate its cases"""
     all_cases, notes, problems = [], [], []
     for b in spec["harness"]:
-        rc, cases, nts, err = run_harness(b["bin"], seed, scale * b.get("scale", 1), b.get("env"),
+        rc, cases, nts, err = run_harness(b["bin"], seed, min(scale * b.get("scale", 1), b.get("max_scale", 10**9)), b.get("env"),
                                           crate=os.path.join(ROOT, b.get("crate", "harness")))
         if rc != 0:
             problems.append("harness %s exited %d: %s" % (b["bin"], rc, err[-400:]))
@@ -500,7 +500,7 @@ def replay(pid, spec, path):
     # families and the environment of the registered run): the batch is generated again from the same seed
     cases = []
     for b in spec["harness"]:
-        rc, cs, _, _ = run_harness(b["bin"], r["seed"], r["scale"] * b.get("scale", 1), b.get("env"),
+        rc, cs, _, _ = run_harness(b["bin"], r["seed"], min(r["scale"] * b.get("scale", 1), b.get("max_scale", 10**9)), b.get("env"),
                                    crate=os.path.join(ROOT, b.get("crate", "harness")))
         fams = b.get("families")
         known_fams = dict(bin_spec(spec, b["bin"])["checkers"])
